@@ -154,7 +154,7 @@ def parseUrl (brOk : Bytes → Bool) (url : Bytes) : Option WsUrl :=
       if u.fragment ≠ [] then none else
       if h = b!"unix" then none else
       -- the resource is built from the path as `urlsplit` returns it, `;parameters` of the last segment included
-      -- (fix PENDING-parse-url-resource-keeps-path-params; before it from `urlparse().path`, which cuts them off)
+      -- (fix 08167c09; before it from `urlparse().path`, which cuts them off)
       let rpath := if u.path = [] then b!"/" else u.path
       let resource := if u.query ≠ [] then rpath ++ b!"?" ++ u.query else rpath
       match port u.netloc with
